@@ -150,3 +150,28 @@ def chain_pda(rng):
         if rng.random() < 0.5:
             delta.append(['d%d' % i, e, e, [['d%d' % i, e]]])       # a sibling with a silent self-loop
     return {'kind': 'pda', 'Q': Q, 'Sigma': ['a', 'b'], 'Gamma': ['x'], 'delta': delta, 'q0': 's0', 'F': F, 'eps': e}
+
+
+def dense_epsilon_pda(rng):
+    """A closure that is small in configurations but dense in epsilon moves: k states pairwise connected by silent moves
+    (k*k moves, all leading to configurations already known) and behind them a short chain to the accepting state.  The
+    closure has k + 2 or k + 3 configurations; a limit of exactly that size must still reach the end."""
+    e = 'ε'
+    k = rng.randint(3, 7)
+    K = ['k%d' % i for i in range(k)]
+    tail = ['t%d' % i for i in range(rng.randint(2, 3))]
+    Q = ['s0'] + K + tail
+    delta = [['s0', 'a', e, [[K[0], e]]]] if rng.random() < 0.5 else [['s0', e, e, [[K[0], e]]]]
+    for p in K:
+        delta.append([p, e, e, [[q, e] for q in K]])
+    last = rng.choice(K)
+    for i, t in enumerate(tail):
+        src = last if i == 0 else tail[i - 1]
+        # the move into the tail is one more target of an existing key, or a key of its own on a pushed symbol
+        for d in delta:
+            if d[0] == src and d[1] == e and d[2] == e:
+                d[3].append([t, e])
+                break
+        else:
+            delta.append([src, e, e, [[t, e]]])
+    return {'kind': 'pda', 'Q': Q, 'Sigma': ['a'], 'Gamma': ['x'], 'delta': delta, 'q0': 's0', 'F': [tail[-1]], 'eps': e}
